@@ -226,6 +226,34 @@ def run(E: Engine, rep: Report, tier: str) -> dict:
     _declare_rules(E, rep)
     rep.floor("DECLARE", 8)
 
+    # MODE: a rejection that depends only on the sequence's mode (XY / Ising) is not skipped for parametrized
+    # sequences: it is evaluated before the `if self.is_parametrized(): return` short-cut, because the call is
+    # stored and the mode is already known then (otherwise the wrong-mode call surfaces only at build time)
+    from .. import sym as _sym2
+    from .symutil import S as _S2, mentions as _mentions
+
+    par = _sym2.Pattern("self.is_parametrized()").term
+    n_mode = 0
+    for name, fs in E.cls(SEQ).methods.items():
+        for g in fs:
+            if g.kind == "overload" or "is_parametrized" not in norm(g.node) or ("_in_xy" not in norm(g.node) and "_in_ising" not in norm(g.node)):
+                continue
+            Sg = _S2(E, g, inline=False)
+            if not any(par in _sym2.conj_of(l.cond) for l in Sg.logged("return")):
+                continue
+            own_log = [l for l in Sg.log if l.fn == g.short]
+            for l in Sg.logged("raise"):
+                lits = set(_sym2.conj_of(l.cond))
+                tests = [t for t in own_log[: own_log.index(l)] if t.kind == "test" and set(_sym2.conj_of(t.value)) <= lits]
+                if not tests:
+                    continue
+                own = _sym2.conj_of(tests[-1].value)
+                pure_mode = bool(own) and all(x in (("attr", ("name", "self"), "_in_xy"), ("attr", ("name", "self"), "_in_ising"), ("not", ("attr", ("name", "self"), "_in_xy")), ("not", ("attr", ("name", "self"), "_in_ising"))) for x in own)
+                if not pure_mode:
+                    continue
+                n_mode += 1
+                rep.check(_sym2.mk_not(par) not in lits, "MODE", f"{g.short}|mode-rejection-before-parametrized-shortcut|{_sym2.show(tests[-1].value)[:30]}", "the mode rejection is evaluated for parametrized sequences too", f"{g.short}: the rejection guarded by `{_sym2.show(tests[-1].value)}` is reached only when the sequence is not parametrized -- on a parametrized sequence the call is stored although the mode forbids it, and fails only at build()", E.where(g, l.node))
+    rep.floor("MODE", 1)
     return {
         "functions_analysed": len(E.S._callables),
         "timeline_writing_public_methods": sorted(timeline_methods),
